@@ -916,6 +916,33 @@ func checkC18(w *World) {
 				n++
 				// cursor argument: element 0 of the NodeSet asserted from the result parameter under len == 1
 				arg := c.Call.Args[0]
+				// the per-field work may live in a helper that receives the node as a parameter: then what its
+				// (single) caller passes
+				for hop := 0; hop < 3; hop++ {
+					p, isParam := arg.(*ssa.Parameter)
+					if !isParam {
+						break
+					}
+					fn := p.Parent()
+					pi := -1
+					for i, x := range fn.Params {
+						if x == p {
+							pi = i
+						}
+					}
+					var passed []ssa.Value
+					for g2 := range staticReach(um, func(x *ssa.Function) bool { return fnPkgKey(x) == "exec" && x != exec }) {
+						allInstrs(g2, func(in2 ssa.Instruction) {
+							if c2, ok := in2.(*ssa.Call); ok && staticCallee(c2) == fn && pi >= 0 && pi < len(c2.Call.Args) {
+								passed = append(passed, c2.Call.Args[pi])
+							}
+						})
+					}
+					if len(passed) != 1 {
+						break
+					}
+					arg = passed[0]
+				}
 				okCur := false
 				if ld, ok := arg.(*ssa.UnOp); ok {
 					if ia, ok := ld.X.(*ssa.IndexAddr); ok {
